@@ -327,16 +327,57 @@ func (c *caseT) knownCase(rec *ev.Rec, prop string) bool {
 		check("summarize-wholerow-inside", wholeRowInside(c.tq.q, true)) ||
 		check("summarize-wholerow-after-project", wholeRowFlips(c.tq.q, false)) ||
 		check("unique-index-empty-value", c.emptyUniqueRow()) ||
-		check("or-with-empty-range", orWithEmptyTerm(c.tq.q))
+		check("or-with-empty-range", orWithEmptyTerm(c.tq.q)) ||
+		check("where-in-empty-duplicates", inWithEmpty(c.tq.q)) ||
+		check("extend-reuses-renamed-name", extendReusesRenamed(c.tq.q))
 }
 
-// hasIn: some where of the query has an `in` with at least two values.
-func hasIn(q *qnode) bool {
+// inWithEmpty: some where of the query has an `in` with at least two
+// different values one of which is "" (or an `or` of equalities on one column
+// including ""): known finding where-in-empty-duplicates.
+func inWithEmpty(q *qnode) bool {
 	found := false
 	var inExpr func(e *exprT)
 	inExpr = func(e *exprT) {
-		if e.op == "in" && len(e.args) > 2 {
-			found = true
+		if e.op == "in" {
+			vals := map[string]bool{}
+			for _, a := range e.args[1:] {
+				vals[a.lit.packed] = true
+			}
+			if vals[""] && len(vals) > 1 {
+				found = true
+			}
+		}
+		if e.op == "or" {
+			vals := map[string]map[string]bool{}
+			for _, a := range e.args {
+				if a.op == "is" && a.args[0].op == "col" && a.args[1].op == "const" {
+					if vals[a.args[0].col] == nil {
+						vals[a.args[0].col] = map[string]bool{}
+					}
+					vals[a.args[0].col][a.args[1].lit.packed] = true
+				}
+				if a.op == "in" && a.args[0].op == "col" {
+					if vals[a.args[0].col] == nil {
+						vals[a.args[0].col] = map[string]bool{}
+					}
+					for _, b := range a.args[1:] {
+						vals[a.args[0].col][b.lit.packed] = true
+					}
+				}
+			}
+			for _, v := range vals {
+				if v[""] && len(v) > 1 {
+					found = true
+				}
+			}
+			// `col is "" or <any other term on col>`
+			for _, a := range e.args {
+				if len(a.args) > 0 && a.args[0].op == "col" && vals[a.args[0].col][""] &&
+					!(a.op == "is" || a.op == "in") {
+					found = true
+				}
+			}
 		}
 		for _, a := range e.args {
 			inExpr(a)
@@ -351,6 +392,45 @@ func hasIn(q *qnode) bool {
 			if m.op == "view" {
 				rec(m.viewOf)
 			}
+		})
+	}
+	rec(q)
+	return found
+}
+
+// extendReusesRenamed: an extend defines a column whose name a rename below
+// it renamed away (known finding extend-reuses-renamed-name).
+func extendReusesRenamed(q *qnode) bool {
+	found := false
+	var rec func(n *qnode)
+	rec = func(n *qnode) {
+		n.walk(func(m *qnode) {
+			if m.op == "view" {
+				rec(m.viewOf)
+			}
+			if m.op != "extend" {
+				return
+			}
+			var below func(x *qnode)
+			below = func(x *qnode) {
+				if x == nil {
+					return
+				}
+				if x.op == "view" {
+					below(x.viewOf)
+					return
+				}
+				if x.op == "rename" {
+					for _, f := range x.from {
+						if contains(m.ecols, f) {
+							found = true
+						}
+					}
+				}
+				below(x.src)
+				below(x.src2)
+			}
+			below(m.src)
 		})
 	}
 	rec(q)
